@@ -20,6 +20,11 @@ structure SState where
       typed setter whose arguments are representable (`typedExpect`); later calls of the same setter add options the typed
       getter does not look at -/
   typedVals : List (Nat × String × String × String) := []
+  /-- the classes pushed since `new`, outermost first (`set <idx>` counts from the outermost layer) -/
+  classes : List String := []
+  /-- (layer index, option code) edited through the raw interface where the class has a code table (`codeOf`): only the
+      typed getter of that code is not tracked any more -/
+  poisonCodes : List (Nat × Nat) := []
 
 structure Layer where
   cls : String
@@ -467,6 +472,30 @@ def typedValue (l : Layer) (name : String) : Option String :=
 def typedFailed (v : String) : Bool :=
   v == "bad" || v == "mp" || v == "malformed_option" || v == "malformed_packet" || v.startsWith "!"
 
+/-- option code a typed setter of TCP / IP / DHCP / DHCPv6 adds (tcp.h, ip.h, dhcp.h, dhcpv6.h `OptionTypes`; for IP the
+    option number, i.e. the type octet modulo 32).  Used only to narrow what a raw `add_option <code>` / `remove_option <code>`
+    un-tracks: without an entry the whole layer is un-tracked as before. -/
+def codeOf (cls name : String) : Option Nat :=
+  let look (t : List (String × Nat)) := (t.find? (fun e => e.1 == name)).map (·.2)
+  match cls with
+  | "TCP" => look [("mss", 2), ("winscale", 3), ("sack_permitted", 4), ("sack", 5), ("timestamp", 8), ("altchecksum", 14)]
+  | "IP" => look [("security", 2), ("lsrr", 3), ("record_route", 7), ("stream_identifier", 8), ("ssrr", 9)]
+  | "DHCP" => look [("subnet_mask", 1), ("routers", 3), ("domain_name_servers", 6), ("hostname", 12), ("domain_name", 15),
+                    ("broadcast", 28), ("requested_ip", 50), ("lease_time", 51), ("type", 53), ("server_identifier", 54),
+                    ("renewal_time", 58), ("rebind_time", 59)]
+  | "DHCPv6" => look [("client_id", 1), ("server_id", 2), ("ia_na", 3), ("ia_ta", 4), ("ia_address", 5), ("option_request", 6),
+                      ("preference", 7), ("elapsed_time", 8), ("relay_message", 9), ("authentication", 11), ("server_unicast", 12),
+                      ("status_code", 13), ("rapid_commit", 14), ("user_class", 15), ("vendor_class", 16), ("vendor_info", 17),
+                      ("interface_id", 18), ("reconfigure_msg", 19), ("reconfigure_accept", 20)]
+  | _ => none
+
+def hasCodeTable (cls : String) : Bool := cls == "TCP" || cls == "IP" || cls == "DHCP" || cls == "DHCPv6"
+
+def normCode (cls : String) (c : Nat) : Nat := if cls == "IP" then c % 32 else c
+
+/-- dump field ↦ setter name (the flag options are dumped as `has_<name>`) -/
+def setterOfField (f : String) : String := if f.startsWith "has_" then (f.drop 4).toString else f
+
 /-- C04 = the wire half (`specReparse`) + "getters reflect exactly the accumulated edits" for the verbatim setters.  A typed
     setter ADDS an option and the typed getter returns the FIRST option of that code ("first matching option"), so what a
     dump must show under `name` is the first value set through that setter — as long as the option list of the layer was
@@ -476,13 +505,36 @@ def spec04 (st : SState) (line : String) : SState × String :=
   | none => (st, "bad-line")
   | some (op, common, _) =>
     match words op with
-    | ["new"] => ({ st with sets := [], poison := [], typed := [], typedVals := [] }, "unspecified")
+    | ["new"] => ({ st with sets := [], poison := [], typed := [], typedVals := [], classes := [], poisonCodes := [] }, "unspecified")
+    | "push" :: cls :: _ =>
+      if (words common).head? == some "ok" then ({ st with classes := st.classes ++ [cls] }, "unspecified") else (st, "unspecified")
     | "set" :: idx :: name :: rest =>
       if (words common).head? != some "ok" then (st, "unspecified") else
       match idx.toNat? with
       | none => (st, "unspecified")
       | some i =>
-        if st.poison.contains i then (st, "unspecified")
+        let cls := st.classes[i]?.getD ""
+        let codePoisoned := match codeOf cls name with
+          | some c => st.poisonCodes.contains (i, c)
+          | none => false
+        if st.poison.contains i || codePoisoned then (st, "unspecified")
+        -- END terminates an option list: what is added behind it is not an option on the wire
+        else if name == "eol" || name == "end" then
+          ({ st with sets := st.sets.filter (fun e => e.1 != i), typed := st.typed.filter (fun e => e.1 != i),
+                     typedVals := st.typedVals.filter (fun e => e.1 != i), poison := i :: st.poison }, "unspecified")
+        -- a raw edit by code on a class with a code table: only the typed getter of that code is affected
+        else if (name.startsWith "add_option" || name == "remove_option") && hasCodeTable cls && (rest.head?.bind (·.toNat?)).isSome then
+          let c := normCode cls ((rest.head?.bind (·.toNat?)).getD 0)
+          -- the END code of the class terminates the list on the wire: as `eol` / `end` above
+          if (cls == "DHCP" && c == 255) || ((cls == "TCP" || cls == "IP") && c == 0) then
+            ({ st with sets := st.sets.filter (fun e => e.1 != i), typed := st.typed.filter (fun e => e.1 != i),
+                       typedVals := st.typedVals.filter (fun e => e.1 != i), poison := i :: st.poison }, "unspecified")
+          else
+          let hit (n : String) : Bool := codeOf cls (setterOfField n) == some c
+          ({ st with sets := st.sets.filter (fun e => !(e.1 == i && hit e.2.1)),
+                     typed := st.typed.filter (fun e => !(e.1 == i && hit e.2)),
+                     typedVals := st.typedVals.filter (fun e => !(e.1 == i && hit e.2.2.1)),
+                     poisonCodes := (i, c) :: st.poisonCodes }, "unspecified")
         else if verbatimSetters.contains name then
           match rest with
           | [v] =>
